@@ -167,6 +167,8 @@ def r5_no_exponential_backtracking(ctx):
                                               "descent makes the second parse the nested text again — parse time doubles per nesting level" % (
                                                   "the same token %s" % opener if ta else "nothing", sorted(c.split("::")[-1] for c in ra & rb)[:3], g.split("::")[-1]),
                                      "%s:%d" % (F.fns[g]["file"], node.get("ln") or F.fns[g]["line"]))
+    if G.opaque:
+        ctx.note("%s: hand-written parser functions (statements before their combinator; not judged): %s" % (R, sorted(k.split("::")[-1] for k in G.opaque)))
     ctx.floor(R, "alt combinators examined", n_alts, 30)
     ctx.ok(R, "grammar|alternative pairs", "%d alt combinators, %d alternative pairs examined" % (n_alts, n_pairs))
 
